@@ -6,6 +6,7 @@
 (*   Arith(f,op,n) pointer arithmetic, then dereference of the result      *)
 (*   Dump         the structure is dumped                                  *)
 (*   Default      a default-constructed structure (pointers have no stream)*)
+(*   Built        a union built from a value (address set, still no stream)*)
 (* State: stream position and the parsed value (addresses of the fields).  *)
 (***************************************************************************)
 EXTENDS PtrSpec, TLC, Json, IOUtils
@@ -27,6 +28,7 @@ Clauses(ev) ==
          (IF r.ok /\ ev.obs.status = "ok" /\ ev.obs.v = r.v THEN {} ELSE {"parse"})
          \cup (IF r.ok /\ ev.obs.pos # r.pos THEN {"width"} ELSE {})
     [] ev.ev = "Default" -> {}
+    [] ev.ev = "Built" -> {}
     [] ev.ev = "Deref" ->
          LET d == Deref(AddrOf(ev), FieldType(ev).target, ev.mode, ev.input, hasStream, ev.consts) IN
          (IF ev.obs.status = d.status /\ (d.status = "ok" => ev.obs.v = d.v) THEN {} ELSE {"deref"})
@@ -54,6 +56,8 @@ Step2 == /\ l <= Len(Events) /\ Events[l].ev # "New"
            /\ CASE ev.ev = "Parse" -> LET r == Decode(ev.type, ev.mode, ev.input, ev.start, << >>, ev.consts) IN
                                       pos' = r.pos /\ val' = r.v /\ hasStream' = TRUE
                 [] ev.ev = "Default" -> pos' = 0 /\ val' = ZeroOf(ev.type, ev.mode) /\ hasStream' = FALSE
+                \* a union built from a value: its pointer member has an address but no stream was ever involved (finding F61)
+                [] ev.ev = "Built" -> pos' = 0 /\ val' = ev.v /\ hasStream' = FALSE
                 [] OTHER -> UNCHANGED <<pos, val, hasStream>>       \* frame condition: nothing else changes the stream
         /\ l' = l + 1
 Spec == Init /\ [][Step \/ Step2]_vars
